@@ -106,6 +106,17 @@ func runVariant(p *props.Property, repo, root, overlayDir string) int {
 func selfTest(p *props.Property, repo, root string) (rows []selfRow, misses int) {
 	dirs, _ := filepath.Glob(filepath.Join(root, "seeded", p.ID+"-*"))
 	sort.Strings(dirs)
+	// regression variants: the diff of every repaired finding of this property, applied in reverse (the defect comes back)
+	rdirs, _ := filepath.Glob(filepath.Join(root, "seeded", "_regress", "*"))
+	sort.Strings(rdirs)
+	for _, d := range rdirs {
+		var m struct {
+			Property string `json:"property"`
+		}
+		if b, err := os.ReadFile(filepath.Join(d, "meta.json")); err == nil && json.Unmarshal(b, &m) == nil && m.Property == p.ID {
+			dirs = append(dirs, d)
+		}
+	}
 	self, _ := os.Executable()
 	rows = make([]selfRow, len(dirs))
 	var wg sync.WaitGroup
@@ -141,6 +152,21 @@ func oneSeed(self string, p *props.Property, repo, root, dir string) selfRow {
 		}
 	}
 	patch := filepath.Join(dir, "patch.diff")
+	reverse := false
+	wantRule := ""
+	if filepath.Base(filepath.Dir(dir)) == "_regress" {
+		patch = filepath.Join(dir, "fix.diff")
+		reverse = true
+		var rm struct {
+			Rule string `json:"rule"`
+		}
+		if b, err := os.ReadFile(filepath.Join(dir, "meta.json")); err == nil {
+			json.Unmarshal(b, &rm)
+		}
+		wantRule = rm.Rule
+		row.Seed = "regress:" + filepath.Base(dir)
+		row.Expected = "caught"
+	}
 	pb, err := os.ReadFile(patch)
 	if err != nil {
 		row.Outcome, row.Note = "skipped", "no patch.diff"
@@ -166,7 +192,11 @@ func oneSeed(self string, p *props.Property, repo, root, dir string) selfRow {
 		os.MkdirAll(filepath.Dir(filepath.Join(tmp, rel)), 0o755)
 		os.WriteFile(filepath.Join(tmp, rel), src, 0o644)
 	}
-	cmd := exec.Command("patch", "-p1", "-s", "--no-backup-if-mismatch", "-F0", "-d", tmp, "-i", patch)
+	args := []string{"-p1", "-s", "--no-backup-if-mismatch", "-F0", "-d", tmp, "-i", patch}
+	if reverse {
+		args = append([]string{"-R"}, args...)
+	}
+	cmd := exec.Command("patch", args...)
 	if out, err := cmd.CombinedOutput(); err != nil {
 		row.Outcome, row.Note = "skipped", "patch does not apply to the current tree: "+firstLine(string(out))
 		return row
@@ -193,6 +223,17 @@ func oneSeed(self string, p *props.Property, repo, root, dir string) selfRow {
 		row.Outcome, row.Note = "skipped", "variant does not type-check: "+firstLine(res.LoadError)
 	case len(res.Violated) > 0:
 		row.Outcome, row.Rules = "reported", res.Violated
+		if wantRule != "" {
+			hit := false
+			for _, r := range res.Violated {
+				if r == wantRule {
+					hit = true
+				}
+			}
+			if !hit {
+				row.Note = "reported by other rules than the one recorded for the finding (" + wantRule + ")"
+			}
+		}
 	default:
 		row.Outcome = "silent"
 		if res.Undecided > 0 {
